@@ -7,7 +7,7 @@ from .. import core, harness, mcworld, shim
 from ..core import SymReal, eq
 from ..mcworld import MC
 
-BOUNDS = {'quick': [(2, 1, 1), (3, 2, 0)], 'thorough': [(2, 1, 1), (3, 2, 0), (3, 2, 2), (4, 2, 1)]}   # (rows k, outputs m, failed iterations)
+BOUNDS = {'quick': [(2, 1, 1), (3, 2, 0)], 'thorough': [(2, 1, 1), (3, 2, 0), (3, 2, 2), (4, 2, 1), (5, 2, 1), (6, 3, 2), (8, 2, 0), (5, 3, 3), (7, 1, 4)]}   # (rows k, outputs m, failed iterations)
 
 
 def units(tier):
@@ -120,7 +120,7 @@ def run_main(k, m, failed):
         def __exit__(self, *a):
             return False
 
-        def map(self, fn, args):
+        def map(self, fn, args, *a, **kw):
             # the K successful iterations have appended their rows (row building is the subject of the rows units)
             for r in range(k):
                 row = ', '.join(f'{vals[r][j]!s}' for j in range(m)) + f', (In X:{xin[r]!s};)\n'
@@ -294,7 +294,7 @@ def replay_stats(rows, failed):
             def __exit__(self, *a):
                 return False
 
-            def map(self, fn, args):
+            def map(self, fn, args, *a, **kw):
                 with open(out, 'a') as f:
                     for r in range(k):
                         f.write(', '.join(repr(float(x)) for x in rows[r]) + f', (In X:{1.0 + (r + 1) / (k + 2)!r};)\n')
